@@ -365,8 +365,12 @@ def check_property(prop, tier, seed, jobs):
         wall_s=round(wall, 2),
         violations=len(violations),
     )
-    os.makedirs(os.path.join(ROOT, "evidence"), exist_ok=True)
-    with open(os.path.join(ROOT, "evidence", "%s.json" % prop), "w") as f:
+    # evidence describes /repo itself: runs pointed at another tree (PVC_REPO_SRC: seeded or
+    # harmless changes on scratch copies) write theirs aside
+    scratch = os.path.realpath(loader.REPO_SRC) != os.path.realpath("/repo/src")
+    ev_dir = os.path.join(ROOT, "scratch", "evidence") if scratch else os.path.join(ROOT, "evidence")
+    os.makedirs(ev_dir, exist_ok=True)
+    with open(os.path.join(ev_dir, "%s.json" % prop), "w") as f:
         json.dump(ev, f, indent=1)
     print("%s: %d/%d tier-P obligations discharged, %d/%d bounded, %d functions, %d conformance replays, %.1fs -> exit %d"
           % (prop, n_dis, n_ob, n_bdis, n_b, len(functions), conform_runs, wall, rc))
